@@ -33,7 +33,14 @@ def kw(*words):
     return '|'.join(words)
 
 
+NONNEG_NUM = r'[+]?(?:[0-9]+|[0-9]*\.[0-9]+)'
+NONNEG_LENGTH = r'(?:%s(?:em|ex|px|in|cm|mm|pt|pc)|%s)' % (NONNEG_NUM, ZERO)
+NONNEG_PERCENTAGE = NONNEG_NUM + '%'
+
 PROPS = {
+    # CSS 2.1 15.7: negative values are not allowed
+    'font-size': kw('xx-small', 'x-small', 'small', 'medium', 'large', 'x-large', 'xx-large', 'larger', 'smaller',
+                    'inherit') + '|' + NONNEG_LENGTH + '|' + NONNEG_PERCENTAGE,
     'background-attachment': kw('scroll', 'fixed', 'inherit'),
     'background-color': COLOR + '|transparent|inherit',
     'background-image': URI + '|none|inherit',
